@@ -55,6 +55,9 @@ def run(ctx, chk):
     chk.rule('C06.5', 'D', 'Op::is_block_end true exactly for control / halt / IME instructions', floor=90)
     chk.rule('C06.6', 'D', 'exactly the 11 undefined opcodes decode to Invalid and Invalid diverges untouched', floor=11)
     chk.rule('C06.7', 'D', 'status codes returned by HALT/STOP/EI/DI/RETI; NORMAL elsewhere', floor=500)
+    chk.rule('C06.8', 'D', 'value level, all operands at once: per encoding and interpreter path, every bit of PC (mod 2^16) '
+             'and, for PUSH/POP/CALL/RET/RETI/RST, of SP and of every stack address and byte is the same function of the '
+             'input bits as in the SM83 reference semantics; no operand value makes run_op diverge', floor=500)
     chk.rule('C06.9', 'D', 'operand fetch stays inside the slice handed to the decoder for every fetch window',
              floor=500)
     facts = ctx.facts('default')
@@ -208,6 +211,10 @@ def run(ctx, chk):
         chk.rules['C06.9']['instances'] += len(lst) - 1
         chk.rules['C06.9']['failures'] += len(lst) - 1
     check_block_end(ctx, chk, sp, prog)
+    from .. import valsem
+    valsem.apply_rule(ctx, chk, 'C06.8', lambda mn, c: c in ('PC', 'total') or
+                      (c in ('SP', 'bus') and mn in valsem.STACK_OPS))
+    valsem.suppress_subsumed(ctx, chk, ('C06.3', 'C06.4'))
     chk.assumptions += ['register pairs hold 16-bit values at instruction entry (established by C05.4)',
                         'PC above 0xffff is not reduced by the interpreter; reported as information only']
     return chk.finish('Per-opcode conditional constant propagation of decode() and run_op() for all 511 encodings '
